@@ -171,39 +171,44 @@ kb1_harness!(kb1_back_lit9_d6, 12, 9, 1, [0x9b, 0x30, 0x71, 0xd2, 0xe4, 0x29, 0x
 kb1_harness!(kb1_back_lit9_d7, 12, 9, 1, [0x9b, 0x30, 0x71, 0xd2, 0xe4, 0x29, 0x53, 0xa7, 0x4d, 0x9f, 0x01, 0xe4], 7);
 
 // ---------------------------------------------------------------------------------------------------------------
-// after the window has been flushed once: a non-final stored block of exactly 256 bytes (data[k] = k) fills the window,
-// then the final fixed block (1 literal, length 3, distance code D + symbolic extra bits).  Every distance up to the
-// window size is valid now and must copy from the ring; larger ones must be rejected.
-const fn wrapped_input(tail: [u8; 3]) -> [u8; 266] {
-    let mut a = [0u8; 266];
+// after the window has been flushed once.  `back()` takes every size from `window.buffer_size()` (never from `wbits`),
+// so the same code is driven with a 16-byte window (a reduced instance; the public API only creates 256..32768): a
+// non-final stored block of exactly W bytes (data[k] = k) fills and flushes the window, then the final fixed block
+// (1 literal, length 3, distance code D + symbolic extra bits).  Every distance up to W is valid now and must copy
+// from the ring; larger ones must be rejected.  (The 256-byte version of this harness did not finish in 1800 s.)
+const WW: usize = 16;
+const WIN_IN: usize = 5 + WW + 3 + 2;
+const fn wrapped_input(dsym: u8) -> [u8; WIN_IN] {
+    let mut a = [0u8; WIN_IN];
     a[0] = 0x00; // BFINAL = 0, BTYPE = 00
-    a[1] = 0x00;
-    a[2] = 0x01; // LEN = 256
-    a[3] = 0xff;
-    a[4] = 0xfe; // NLEN
+    a[1] = WW as u8; // LEN
+    a[2] = 0x00;
+    a[3] = !(WW as u8); // NLEN
+    a[4] = 0xff;
     let mut k = 0;
-    while k < 256 {
+    while k < WW {
         a[5 + k] = k as u8;
         k += 1;
     }
-    a[261] = tail[0];
-    a[262] = tail[1];
-    a[263] = tail[2];
+    // BFINAL = 1, BTYPE = 01, literal 0x90 (9 bits), length symbol 257 (7 bits), distance code (5 bits, MSB first)
+    a[5 + WW] = 0x9b;
+    a[6 + WW] = 0x00;
+    let rev = ((dsym & 1) << 4) | ((dsym & 2) << 2) | (dsym & 4) | ((dsym & 8) >> 2) | ((dsym & 16) >> 4);
+    a[7 + WW] = 0x04 | (rev << 3);
     a
 }
 
-fn back_wrapped_instance<const NSYM: usize>(input0: [u8; 266], dsym: usize) {
+fn back_wrapped_instance<const NSYM: usize>(input0: [u8; WIN_IN], dsym: usize) {
     let mut input = input0;
     let s0: u8 = if NSYM >= 1 { kani::any() } else { 0 };
-    let s1: u8 = if NSYM >= 2 { kani::any() } else { 0 };
-    input[264] = s0;
-    input[265] = s1;
-    let mut win = [0xEEu8; 256];
+    input[8 + WW] = s0;
+    let mut win = [0xEEu8; WW];
     let mut state = State::new(&[], Writer::new(&mut []));
-    state.window = unsafe { Window::from_raw_parts(win.as_mut_ptr(), 256) };
+    state.window = unsafe { Window::from_raw_parts(win.as_mut_ptr(), WW) };
     state.wbits = 8;
     state.flags.update(Flags::SANE, true);
-    let mut ind = InDesc { ptr: input.as_ptr(), len: 264 + NSYM as u32, first: 264 + NSYM as u32, calls: 0 };
+    let n = (8 + WW + NSYM) as u32;
+    let mut ind = InDesc { ptr: input.as_ptr(), len: n, first: n, calls: 0 };
     let mut outd = OutDesc { total: 0, calls: 0, last_ptr: 0, last_len: 0 };
     let mut strm = typed_stream(unsafe { &mut *(&mut state as *mut State) });
     let rc = unsafe {
@@ -218,39 +223,38 @@ fn back_wrapped_instance<const NSYM: usize>(input0: [u8; 266], dsym: usize) {
     core::mem::forget(strm);
     core::mem::forget(state);
     assert!(matches!(rc, ReturnCode::StreamEnd | ReturnCode::DataError | ReturnCode::BufError));
-    assert!(outd.calls >= 1 && outd.last_ptr == win.as_ptr() as usize && outd.last_len <= 256);
-    let v = s0 as u32 | (s1 as u32) << 8;
-    let dist = (DBASE[dsym] + (v & ((1 << DEXT[dsym]) - 1))) as usize;
-    if dist > 256 {
+    assert!(outd.calls >= 1 && outd.last_ptr == win.as_ptr() as usize && outd.last_len as usize <= WW);
+    let dist = (DBASE[dsym] + (s0 as u32 & ((1 << DEXT[dsym]) - 1))) as usize;
+    if dist > WW {
         // beyond the window: rejected; the stored block and the literal were delivered
-        assert!(rc == ReturnCode::DataError && outd.total == 257);
+        assert!(rc == ReturnCode::DataError && outd.total as usize == WW + 1);
     } else {
         // valid for this window: inflate would accept it, so must inflateBack, and copy from the ring
-        assert!(outd.total >= 260, "a distance within the window is accepted after the window has wrapped");
-        // history in stream order: H[k] = k for the 256 stored bytes, H[256] = the literal 0x90, H[257 + t] = H[257 + t - dist];
-        // stream position k lives in window slot k % 256
+        assert!(outd.total as usize >= WW + 4, "a distance within the window is accepted after the window has wrapped");
+        // history in stream order: H[k] = k for the W stored bytes, H[W] = the literal 0x90, H[W + 1 + t] = H[W + 1 + t - dist];
+        // stream position k lives in window slot k % W
         let mut m = [0u8; 3];
         let mut t = 0;
         while t < 3 {
-            let src = 257 + t - dist;
-            m[t] = if src < 256 {
+            let src = WW + 1 + t - dist;
+            m[t] = if src < WW {
                 src as u8
-            } else if src == 256 {
+            } else if src == WW {
                 0x90
             } else {
-                m[src - 257]
+                m[src - WW - 1]
             };
-            assert!(win[(257 + t) % 256] == m[t]);
+            assert!(win[(WW + 1 + t) % WW] == m[t]);
             t += 1;
         }
         assert!(win[0] == 0x90);
     }
-    kani::cover!(rc == ReturnCode::DataError);
-    kani::cover!(DBASE[dsym] > 256 || outd.total >= 260);
+    kani::cover!(rc == ReturnCode::DataError || DBASE[dsym] as usize + ((1usize << DEXT[dsym]) - 1) <= WW);
+    kani::cover!(DBASE[dsym] as usize > WW || outd.total as usize >= WW + 4);
 }
 
 macro_rules! kb1_wrapped_harness {
-    ($name:ident, $nsym:expr, $tail:expr, $dsym:expr) => {
+    ($name:ident, $nsym:expr, $dsym:expr) => {
         #[kani::proof]
         #[kani::unwind(5)]
         #[kani::stub(crate::inflate::inftrees::inflate_table, stub_table_unreachable)]
@@ -260,13 +264,15 @@ macro_rules! kb1_wrapped_harness {
         #[kani::stub(crate::inflate::infback::inflate_fast_back, stub_fast_back_unreachable)]
         #[kani::stub(<[u16]>::fill, stub_fill_unreachable)]
         fn $name() {
-            const INPUT: [u8; 266] = wrapped_input($tail); // evaluated by rustc, no run-time loop
+            const INPUT: [u8; WIN_IN] = wrapped_input($dsym); // evaluated by rustc, no run-time loop
             back_wrapped_instance::<$nsym>(INPUT, $dsym);
         }
     };
 }
-kb1_wrapped_harness!(kb1_back_wrapped_d0, 0, [0x9b, 0x00, 0x04], 0);
-kb1_wrapped_harness!(kb1_back_wrapped_d4, 1, [0x9b, 0x00, 0x24], 4);
-kb1_wrapped_harness!(kb1_back_wrapped_d14, 1, [0x9b, 0x00, 0x74], 14);
-kb1_wrapped_harness!(kb1_back_wrapped_d15, 1, [0x9b, 0x00, 0xf4], 15);
-kb1_wrapped_harness!(kb1_back_wrapped_d16, 1, [0x9b, 0x00, 0x0c], 16);
+kb1_wrapped_harness!(kb1_back_wrapped_d0, 0, 0);
+kb1_wrapped_harness!(kb1_back_wrapped_d1, 0, 1);
+kb1_wrapped_harness!(kb1_back_wrapped_d3, 0, 3);
+kb1_wrapped_harness!(kb1_back_wrapped_d5, 1, 5);
+kb1_wrapped_harness!(kb1_back_wrapped_d6, 1, 6);
+kb1_wrapped_harness!(kb1_back_wrapped_d7, 1, 7);
+kb1_wrapped_harness!(kb1_back_wrapped_d8, 1, 8);
